@@ -8,7 +8,7 @@ package main
 
 // Display stage: one Write per message received, until the channel is closed.
 //@ func DisplayMessages
-//@ requires[C07] messageChan != nil
+//@ requires messageChan != nil
 //@ let rc0 = recvd(messageChan)
 //@ let c0 = gc("wrcalls", writer)
 //@ modifies recv(messageChan), gc("wr", writer), gb("wr", writer), gc("wrcalls", writer), gb("wroff", writer)
@@ -21,7 +21,7 @@ package main
 // fan-out stage feeds, the channel is closed exactly once after the input is exhausted
 // and the function waits for the display goroutine (join obligation).
 //@ func HandleMessages
-//@ requires[C07] config != nil
+//@ requires config != nil
 //@ noterm runs until the input is exhausted
 //@ modifies gc("wr", writer), gb("wr", writer), gc("wrcalls", writer), gb("wroff", writer), config.SystemLog
 //@ ensures[C11] closed(messageChan)
